@@ -163,6 +163,7 @@ type checkRun struct {
 	lemmaObls  []*Obligation
 	lemmaW     map[*Obligation]*World
 	role       map[*FuncReport]string
+	drift      []string
 }
 
 func runCheck(prop, tier string, seed int) int {
@@ -196,7 +197,59 @@ func runCheck(prop, tier string, seed int) int {
 	if err != nil {
 		return fail("loading contracts: %v", err)
 	}
-	cr := &checkRun{prop: prop, tier: tier, seed: seed, timeout: timeout, l: l, specs: specs, worlds: map[*FuncReport]*World{}, lemmaW: map[*Obligation]*World{}, role: map[*FuncReport]string{}}
+	known := loadKnown()
+	clauseOf := func(name string) *Clause {
+		for _, ct := range specs.Contracts {
+			if ct.Kind != "func" {
+				continue
+			}
+			for i, en := range ct.Ensures {
+				lbl := en.Label
+				if lbl == "" {
+					lbl = fmt.Sprintf("post%d", i+1)
+				}
+				if shortPkg(ct.Pkg)+"."+ct.Name+"#ensures."+lbl == name {
+					return en
+				}
+			}
+		}
+		return nil
+	}
+	for _, k := range known.Findings {
+		if k.Status != "fixed" {
+			if cl := clauseOf(k.Obligation); cl != nil {
+				cl.Withdrawn = true
+			}
+		}
+	}
+	var drift []string
+	var cr *checkRun
+	for round := 0; ; round++ {
+		cr = &checkRun{prop: prop, tier: tier, seed: seed, timeout: timeout, l: l, specs: specs, worlds: map[*FuncReport]*World{}, lemmaW: map[*Obligation]*World{}, role: map[*FuncReport]string{}}
+		cr.drift = drift
+		cr.generateAndSolve()
+		// contract drift: a helper (non-★) postcondition that no longer holds is
+		// withdrawn and everything is re-proved without assuming it
+		again := false
+		for _, rep := range cr.reports {
+			for _, o := range rep.Obls {
+				if o.Kind == "ensures" && !o.Star && !o.ok() && o.Clause != nil && !o.Clause.Withdrawn {
+					o.Clause.Withdrawn = true
+					drift = append(drift, o.Name)
+					again = true
+				}
+			}
+		}
+		if !again || round >= 3 {
+			break
+		}
+	}
+	cr.drift = drift
+	return cr.report(start, evPath)
+}
+
+func (cr *checkRun) generateAndSolve() {
+	prop, l, specs, timeout, seed := cr.prop, cr.l, cr.specs, cr.timeout, cr.seed
 	// functions serving the property, then the closure of contracts they rely on
 	var queue []*Contract
 	seen := map[*Contract]bool{}
@@ -260,6 +313,14 @@ func runCheck(prop, tier string, seed int) int {
 			cr.lemmaW[o] = w
 		}
 	}
+	// obligations of withdrawn clauses matter only under their own property
+	for _, rep := range cr.reports {
+		for _, o := range rep.Obls {
+			if o.Kind == "ensures" && o.Clause != nil && o.Clause.Withdrawn && !(cr.role[rep] == "property" && hasProp(o.Props, prop)) {
+				o.Result = &SolverResult{Status: "withdrawn", Solver: "-"}
+			}
+		}
+	}
 	// solve everything
 	var wg sync.WaitGroup
 	for _, rep := range cr.reports {
@@ -279,7 +340,6 @@ func runCheck(prop, tier string, seed int) int {
 		}(o)
 	}
 	wg.Wait()
-	return cr.report(start, evPath)
 }
 
 func (cr *checkRun) report(start time.Time, evPath string) int {
@@ -320,6 +380,14 @@ func (cr *checkRun) report(start time.Time, evPath string) int {
 		for _, o := range rep.Obls {
 			if cr.role[rep] == "property" && o.Kind == "ensures" && !hasProp(o.Props, prop) {
 				continue // clause serves another property
+			}
+			if o.Kind == "ensures" && o.Clause != nil && o.Clause.Withdrawn && !o.ok() {
+				if !o.Star {
+					continue // drifted helper clause: withdrawn, nothing depends on it any more
+				}
+				if !(cr.role[rep] == "property" && hasProp(o.Props, prop)) {
+					continue // known finding of another property; not assumed here
+				}
 			}
 			if o.Kind == "vacuity" {
 				vacuity++
@@ -422,6 +490,7 @@ func (cr *checkRun) report(start time.Time, evPath string) int {
 			"vacuity_checks":           vacuity,
 			"outside_subset":           outside,
 			"known_findings_hit":       knownHit,
+			"contract_drift":           cr.drift,
 			"lemmas":                   len(cr.lemmaObls),
 		},
 		"assumptions": assumptions,
